@@ -366,10 +366,25 @@ class GhostPointerDict:
     def sym_setitem(self, I, key, v):
         self.log.append(('new', key, v))
 
+    def sym_method(self, I, name, a, k):
+        if name == 'update':
+            # dict.update replaces the whole list of a key that is already there: the pointers earlier files installed under it are lost
+            d = a[0] if a else None
+            keys = [x for x in d.keys()] if isinstance(d, dict) else []
+            nm = 'C13/install/earlier-pointers-of-a-key-are-kept (dict.update replaces the list of a key that is already present)'
+            if keys and all(hasattr(x, 'code') for x in keys):
+                for key in keys:
+                    I.e.prove(nm, z3.Not(self.present(key.code)))
+            else:
+                I.e.prove(nm, False)
+            self.log.append(('update', None, d))
+            return None
+        raise Unsupported(f'pointers.{name}')
+
 
 class _InstallPointers(Contract):
     """every pointer produced by the reader / generator is stored under its own key, in order, and nothing else is stored"""
-    props = ('C13', 'C06')
+    props = ('C13', 'C06', 'C05')      # C05: a GVF file added to the run only adds pointers, the pointers of the files before it stay
     reader = 'parse'
 
     def setup(self, I):
